@@ -68,3 +68,5 @@ Fixpoint name_in (n : list N) (l : list (list N)) : bool :=
   end.
 (* Tz::from_str accepts exactly the names of chrono_tz::TZ_VARIANTS *)
 Definition tz_known (n : list N) : bool := name_in n tz_names.
+(* never let simpl / cbn unfold the 596 literal names (vm_compute still computes it) *)
+Arguments tz_known : simpl never.
